@@ -20,6 +20,7 @@ package processor
 import (
 	"fmt"
 	"io"
+	"math"
 	"strconv"
 
 	"github.com/siglens/siglens/pkg/segment/query/iqr"
@@ -46,7 +47,12 @@ func (p *sortProcessor) Process(inputIQR *iqr.IQR) (*iqr.IQR, error) {
 	}
 
 	p.validate()
-	err := inputIQR.Sort(p.getSortColumns(), p.less, int(p.options.Limit))
+	// `sort 0` is parsed as math.MaxUint64 (no limit); it must not turn negative.
+	limit := math.MaxInt
+	if p.options.Limit < uint64(math.MaxInt) {
+		limit = int(p.options.Limit)
+	}
+	err := inputIQR.Sort(p.getSortColumns(), p.less, limit)
 	if err != nil {
 		log.Errorf("sort.Process: cannot sort IQR; err=%v", err)
 		return nil, err
